@@ -32,6 +32,21 @@ PROVED = {
          'suffix (one induction over decoder programs as a free monad over the Reader trait). reveal() builds its own SliceReader: covered by (a) only, see C13.'),
  'C05': ('Theorems C05_decode_refines_spec / C05_avps_refine_spec / C05_payload_refines_spec: the Model decoder equals the positional executable specification '
          'Spec/SpecDecode.v on complete results (value + remaining input, or the whole error list) for every octet string and option set.'),
+ 'C06': ('Theorems C06_encode_refines_spec / C06_avp_refines_spec / C06_encode_writer: the Model encoder (placeholders back-patched through write_bytes_at) emits '
+         'exactly p ++ s_encode v behind any prefix p when the value fits its length fields, and panics otherwise; s_encode is the layout stated once, declaratively.'),
+ 'C07': ('Theorems C07_lengths_exact (independent walker walk_ok over the emitted octets), C07_avp_length_field, C07_get_length, C07_oversize_avp, C07_oversize_msg. '
+         'The hide() assertion clause is proved with the hiding development (C12) and is covered here differentially until then.'),
+ 'C08': ('Theorems C08_suffix / C08_accepted_suffix (octets after the declared end change nothing but the remaining input, for every accepted control message and data '
+         'message with a length field), C08_ctrl_consumes_declared, C08_avps_concat / C08_avps_records (well-delimited records decode independently). On the Spec, '
+         'transported by C05. The statement about encoder-produced sequences needs the round trip (C03/C04) and is covered differentially (DECSEQ) until that lands.'),
+ 'C09': ('Theorems C09_prefix_independent, C09_sequence, C09_overwrites_inside, C09_avp_overwrite: corollaries of the encoder refinement, including the overwrite log of the writer.'),
+ 'C14': ('Theorems C14_monotone, C14_reject_monotone, C14_version_exact, C14_reserved_exact, C14_unused_exact, C14_unused_data_inert, C14_bits_inert, C14_default on the Spec '
+         '(transported by C05); the flag-word facts the refinement uses are proved for all 65536 words by vm_compute sweeps lifted with forallb_forall.'),
+ 'C15': ('Theorems C15_ctrl_result (the result of a control message over a concatenation of well-delimited records is determined record by record: all-or-nothing, errors of the '
+         'undecodable records in wire order), C15_one_error_per_bad_record, C15_err_nonempty, C15_zlb_accepted, C15_stop_only_on_bad_length, C15_vendor_is_error.'),
+ 'C16': ('Theorems C16_message_type / error_type / proxy_authen_type / stop_ccn_code / cdn_code / attribute_types (exact acceptance sets over all of N), the five bijection theorems, '
+         'C16_rfc_numbers, C16_dispatch_is_table, C16_result_code_raw; the correspondence sweeps all 65536 codes of each field through the implementation on every run.'),
+ 'C17': ('Theorems C17_constructor_accessors, C17_accessor_is_own_bit (for every word, via N.testbit lemmas), C17_distinct_bits, C17_raw_roundtrip.'),
 }
 for pid, txt in PROVED.items():
     META[pid] = P('proof', txt, 'DESIGN.md section 7 (%s)' % pid, PROOF_TECH, CORR)
